@@ -24,6 +24,8 @@ Guards(e) ==
      <<"G_C16_OneSpend", /\ Oks(e, "totp_auth") <= 1
                          /\ Oks(e, "botp_use") <= 1
                          /\ Oks(e, "u2f_auth") + Oks(e, "webauthn_auth") <= 1>>,
+     \* requests about one user leave every other user's record alone (KMConc keeps one profile per user; nothing is shared)
+     <<"G_C16_BystanderUntouched", ("bystander" \in DOMAIN e.final) => e.final.bystander>>,
      <<"G_C16_NoRace", ~e.race>>, <<"G_C10_NoPanic", ~e.panic>>}
 TInit == Init /\ l = 1 /\ viol = {}
 \* several operators inject the right passphrase at once: as if one after another, exactly one of them unseals
@@ -33,7 +35,7 @@ TNext == /\ l <= Len(TraceLog)
                 bad == IF e.ev = "UnsealRound" THEN Failed(UnsealGuards(e)) ELSE IF e.ev = "Soak" THEN {}
                        \* degraded mode (second request served from the offline cache): what it may or may not persist is C15's
                        \* business; here: an acknowledged disable / delete stays
-                       ELSE IF e.ev = "Degraded" THEN {g \in Failed(Guards(e)) : g \in {"G_C16_NotUndone", "G_C10_NoPanic"}}
+                       ELSE IF e.ev = "Degraded" THEN {g \in Failed(Guards(e)) : g \in {"G_C16_NotUndone", "G_C16_BystanderUntouched", "G_C10_NoPanic"}}
                        ELSE Failed(Guards(e))
             IN viol' = IF bad = {} THEN viol ELSE viol \cup {<<l, e.ev, bad>>}
          /\ l' = l + 1 /\ UNCHANGED vars
